@@ -223,8 +223,38 @@ fn build(n: &Node, dt: &DataType, share: bool, cache: &mut DictCache) -> Option<
             cache.insert(key, d.clone()); kids.push(d);
         } else { kids.push(build(k, &cts[i], share, cache)?) }
     }
+    // Parents whose typed constructors cut their children (Struct, FixedSizeList, sparse Union) are built with
+    // ARRAY-level slices: StructArray::from / FixedSizeListArray::from(ArrayData) cut children with ArrayData::slice, and
+    // UnionArray::from(ArrayData) does not apply a sparse union's offset to its children, so make_array of such a
+    // layout is not the array the layout denotes (an arrow-array matter, not an IPC one)
+    let own_nulls = |n: &Node| n.nulls.as_ref().and_then(|x| if x.bytes.len() * 8 >= x.off + x.len { Some(NullBuffer::new(BooleanBuffer::new(abuf(&x.bytes), x.off, x.len))) } else { None });
+    if n.nulls.is_some() && own_nulls(n).is_none() { return None }
+    match dt {
+        DataType::Union(fields, UnionMode::Sparse) => {
+            if n.bufs.is_empty() || n.bufs[0].len() < n.off + n.len { return None }
+            let type_ids: Vec<i8> = n.bufs[0][n.off..n.off + n.len].iter().map(|b| *b as i8).collect();
+            let mut children: Vec<ArrayRef> = Vec::new();
+            for k in kids { let a = make_array(k); if a.len() < n.off + n.len { return None } children.push(a.slice(n.off, n.len)) }
+            return arrow_array::UnionArray::try_new(fields.clone(), arrow_buffer::ScalarBuffer::from(type_ids), None, children).ok().map(|u| u.into_data());
+        }
+        DataType::Struct(fields) if !fields.is_empty() => {
+            let mut children: Vec<ArrayRef> = Vec::new();
+            for k in kids { let a = make_array(k); if a.len() < n.off + n.len { return None } children.push(a.slice(n.off, n.len)) }
+            return arrow_array::StructArray::try_new(fields.clone(), children, own_nulls(n)).ok().map(|u| u.into_data());
+        }
+        DataType::FixedSizeList(f, size) => {
+            let k = *size as usize;
+            let a = make_array(kids.into_iter().next()?);
+            if a.len() < (n.off + n.len) * k { return None }
+            return arrow_array::FixedSizeListArray::try_new(f.clone(), *size, a.slice(n.off * k, n.len * k), own_nulls(n)).ok().map(|u| u.into_data());
+        }
+        _ => {}
+    }
     let nb = n.nulls.as_ref().map(|x| abuf(&x.bytes));
-    ArrayData::try_new(dt.clone(), n.len, nb, n.off, n.bufs.iter().map(|b| abuf(b)).collect(), kids).ok()
+    match ArrayData::try_new(dt.clone(), n.len, nb, n.off, n.bufs.iter().map(|b| abuf(b)).collect(), kids) {
+        Ok(d) => Some(d),
+        Err(e) => { if std::env::var("C04_DEBUG").is_ok() { eprintln!("C04_DEBUG build: {e} for {dt}") } None }
+    }
 }
 
 pub fn build_batches(c: &CaseData) -> Option<(SchemaRef, Vec<RecordBatch>)> {
@@ -406,6 +436,7 @@ pub fn read_all(o: &Opts, wire: &Wire, proj: Option<Vec<usize>>) -> Result<(Opti
 }
 
 fn kind_of(e: &ArrowError) -> i64 {
+    if std::env::var("C04_DEBUG").is_ok() { eprintln!("C04_DEBUG error: {e}") }
     match e {
         ArrowError::InvalidArgumentError(_) => E_INVALID, ArrowError::IoError(_, _) => E_IO, ArrowError::NotYetImplemented(_) => E_UNSUPPORTED,
         ArrowError::ParseError(_) | ArrowError::IpcError(_) | ArrowError::SchemaError(_) => E_INVALID, _ => E_INVALID,
@@ -485,7 +516,7 @@ fn roundtrip(c: &CaseData) -> Args {
 }
 
 // ------------------------------------------------------------------ message-level observables
-struct Frame { start: usize, prefix: usize, meta_len: usize, body_len: usize, kind: i64, is_delta: i64, id: i64, nodes: i64, bufs: i64, rows: i64, vars: Vec<i64> }
+struct Frame { start: usize, prefix: usize, meta_len: usize, body_len: usize, meta_pos: usize, body_pos: usize, kind: i64, is_delta: i64, id: i64, nodes: i64, bufs: i64, rows: i64, vars: Vec<i64> }
 
 fn inspect(meta: &[u8]) -> Option<(i64, i64, i64, i64, i64, i64, Vec<i64>, usize)> {
     let m = arrow_ipc::root_as_message(meta).ok()?;
@@ -513,10 +544,12 @@ fn frames(b: &[u8], mut pos: usize) -> Option<(Vec<Frame>, bool, usize)> {
         if len == 0 { return Some((out, true, pos)) }
         if len < 0 || pos + len as usize > b.len() { return None }
         let (kind, is_delta, id, nodes, bufs, rows, vars, body_len) = inspect(&b[pos..pos + len as usize])?;
+        let meta_pos = pos;
         pos += len as usize;
         if pos + body_len > b.len() { return None }
+        let body_pos = pos;
         pos += body_len;
-        out.push(Frame { start, prefix, meta_len: len as usize, body_len, kind, is_delta, id, nodes, bufs, rows, vars });
+        out.push(Frame { start, prefix, meta_len: len as usize, body_len, meta_pos, body_pos, kind, is_delta, id, nodes, bufs, rows, vars });
     }
 }
 fn pad8(n: usize, a: usize) -> usize { (a - n % a) % a }
@@ -588,6 +621,74 @@ pub fn run(op: &str, a: &Args) -> Option<Args> {
             let b = &rbs[sel[0] as usize % rbs.len()];
             Some(c01::dump(b.column(sel[1] as usize % b.num_columns()).as_ref()).unwrap_or_else(skip))
         }
+        // one column of one batch written alone (uncompressed): the physical array handed to the writer and, per
+        // dictionary / record batch message, the field nodes, variadic counts and the bytes of every buffer
+        "c04.encode" => {
+            let n = a.len();
+            let sel = to_i64s(&a[n - 1]);
+            let c = decode_case(&a[..n - 1].to_vec());
+            let Some((schema, batches)) = std::panic::catch_unwind(std::panic::AssertUnwindSafe(|| build_batches(&c))).ok().flatten() else { return Some(skip()) };
+            if batches.is_empty() || schema.fields().is_empty() { return Some(skip()) }
+            let b = &batches[sel[0] as usize % batches.len()];
+            let ci = sel[1] as usize % b.num_columns();
+            let col = b.column(ci).clone();
+            let s1 = Arc::new(Schema::new(vec![schema.field(ci).clone()]));
+            let Ok(rb) = RecordBatch::try_new(s1.clone(), vec![col.clone()]) else { return Some(skip()) };
+            let mut o = c.opts.clone(); o.kind = 1; o.comp = 0; o.dh = 0;
+            let Ok(Wire::Bytes(bytes)) = write_all(&o, &s1, &[rb]) else { return Some(skip()) };
+            let Some(dump) = c01::from_data(&col.to_data()) else { return Some(skip()) };
+            let mut out: Args = vec![gs(&[c.opts.v5 as i64, c.opts.align])];
+            c09::encode(&dump, &mut out);
+            out.push(gs(&[-7777]));
+            let Some((fs, _, _)) = frames(&bytes, 0) else { return Some(vec![gs(&[-2, 1])]) };
+            for f in fs.iter().filter(|f| f.kind != 1) {
+                let m = arrow_ipc::root_as_message(&bytes[f.meta_pos..f.meta_pos + f.meta_len]).ok()?;
+                let rbm = if f.kind == 2 { m.header_as_dictionary_batch()?.data()? } else { m.header_as_record_batch()? };
+                let body = &bytes[f.body_pos..f.body_pos + f.body_len];
+                let bufs = rbm.buffers()?;
+                out.push(gs(&[f.kind, f.is_delta, f.id, f.rows, bufs.len() as i64]));
+                out.push(rbm.nodes()?.iter().flat_map(|x| [BigInt::from(x.length()), BigInt::from(x.null_count())]).collect());
+                out.push(gs(&f.vars));
+                for x in bufs.iter() { out.push(gbytes(&body[x.offset() as usize..(x.offset() + x.length()) as usize])) }
+            }
+            Some(out)
+        }
+        "c04.probe" => { probe(to_i64s(&a[0])[0]); Some(vec![g(1)]) }
+        // diagnosis: the round trip of every (column, batch) of a case on its own
+        "c04.dbg" => {
+            let c = decode_case(a);
+            for ci in 0..c.cols.len() {
+                for bi in 0..c.batches.len() {
+                    let mut c1 = c.clone();
+                    c1.cols = vec![c.cols[ci].clone()]; c1.proj = None;
+                    c1.batches = vec![Batch { rows: c.batches[bi].rows, slice: c.batches[bi].slice, cols: vec![c.batches[bi].cols[ci].clone()] }];
+                    let out = roundtrip(&c1);
+                    eprintln!("col {ci} batch {bi} type {:?} field {:?} -> {}", enc_ty_vec(&c.cols[ci].ty), field_of(0, &c.cols[ci]), fmt_args(&out));
+                }
+            }
+            Some(vec![g(1)])
+        }
+        // split_batch_for_grpc_response observed through the encoder: [size seen by the encoder; rows of each piece]
+        "c04.flight_split" => {
+            let v = to_i64s(&a[0]);
+            let (rows, max, ncols) = (v[0] as usize, v[1] as usize, v[2] as usize);
+            let mut cols: Vec<ArrayRef> = Vec::new();
+            let mut fields = Vec::new();
+            for i in 0..ncols {
+                // Vec-backed buffers: get_buffer_memory_size is the capacity of the allocation
+                let c: ArrayRef = if i % 2 == 0 { Arc::new(arrow_array::Int64Array::from((0..rows as i64).collect::<Vec<_>>())) } else { Arc::new(arrow_array::Int8Array::from((0..rows).map(|x| x as i8).collect::<Vec<_>>())) };
+                fields.push(Field::new(format!("c{i}"), c.data_type().clone(), false));
+                cols.push(c);
+            }
+            let schema = Arc::new(Schema::new(fields));
+            let Ok(rb) = RecordBatch::try_new_with_options(schema.clone(), cols, &RecordBatchOptions::new().with_row_count(Some(rows))) else { return Some(skip()) };
+            let size: usize = rb.columns().iter().map(|c| c.get_buffer_memory_size()).sum();
+            let o = Opts { kind: 3, align: 8, v5: true, legacy: false, comp: 0, dh: 0, fmax: max as i64, fdh: 1, share: false, chunk_seed: 0, with_schema: false };
+            let Ok(Wire::Flight(ds)) = write_all(&o, &schema, &[rb]) else { return Some(err(E_INVALID)) };
+            let mut out = vec![BigInt::from(size)];
+            for d in &ds { if let Some((3, _, _, _, _, r, _, _)) = inspect(&d.data_header) { out.push(BigInt::from(r)) } }
+            Some(vec![out])
+        }
         _ => None,
     }
 }
@@ -612,20 +713,79 @@ fn any_ty(t: &Ty, p: &dyn Fn(&Ty) -> bool) -> bool {
         _ => false,
     }
 }
+/// types whose slots can be null without a validity bitmap of their own (nulls come from the values /
+/// children): a field of such a type must be declared nullable or typed constructors reject the data
+fn logical_nulls(t: &Ty) -> bool { matches!(t, Ty::Null | Ty::Dict { .. } | Ty::Ree { .. } | Ty::Union { .. }) }
+fn fix_nullable(t: &mut Ty) {
+    match t {
+        Ty::List { nullable, c, .. } | Ty::ListView { nullable, c, .. } | Ty::FixedList { nullable, c, .. } => { fix_nullable(c); if logical_nulls(c) { *nullable = true } }
+        Ty::Struct(fs) => for (nb, t) in fs.iter_mut() { fix_nullable(t); if logical_nulls(t) { *nb = true } },
+        Ty::Dict { v, .. } | Ty::Ree { v, .. } => fix_nullable(v),
+        Ty::Union { fs, .. } => for (_, t) in fs.iter_mut() { fix_nullable(t) },
+        _ => {}
+    }
+}
 fn gen_col_ty(r: &mut Rng) -> Ty {
     loop {
         let depth = match r.below(10) { 0..=2 => 0, 3..=5 => 1, 6..=8 => 2, _ => 3 };
-        let t = match r.below(12) {
+        let mut t = match r.below(12) {
             // shapes the generic generator rarely produces: Map, dictionary of strings, nested dictionaries
-            0 => Ty::List { large: false, nullable: false, c: Box::new(Ty::Struct(vec![(false, c09::gen_ty(r, 0)), (true, c09::gen_ty(r, depth.min(2)))])) },
+            0 => { let key = loop { let k = c09::gen_ty(r, 0); if !logical_nulls(&k) { break k } };
+                   Ty::List { large: false, nullable: false, c: Box::new(Ty::Struct(vec![(false, key), (true, c09::gen_ty(r, depth.min(2)))])) } }
             1 => Ty::Dict { kw: *r.pick(&[1, 2, 4, 8]), signed: r.bool(), v: Box::new(Ty::Bin { large: r.bool(), utf8: true }) },
             2 => Ty::Dict { kw: *r.pick(&[1, 2, 4]), signed: r.bool(), v: Box::new(c09::gen_ty(r, 1)) },
             3 => Ty::List { large: r.bool(), nullable: true, c: Box::new(Ty::Dict { kw: 4, signed: true, v: Box::new(c09::gen_ty(r, 0)) }) },
             _ => c09::gen_ty(r, depth),
         };
         if has_dict_in_dict(&t) { continue }
+        fix_nullable(&mut t);
         return t;
     }
+}
+
+/// Simulation of the slices the writer takes (write_array_data): reports the two input classes that are
+/// excluded from the generator because arrow-rs does not round-trip them (see `gen_case`).
+///   A: a Union array reached through a non-trivial ArrayData::slice (child of a List / LargeList / Map whose
+///      addressed range is not the whole child, possibly through Struct / FixedSizeList): the writer emits the
+///      union's buffers and children ignoring the slice
+///   B: a RunEndEncoded array of logical length 0 whose run-ends child is not empty: the writer emits the run end 0
+/// `s`, `l`: the logical range of `n` that is written; `imp`: the range was cut by an ArrayData-level slice
+fn hazard(n: &Node, s: usize, l: usize, imp: bool) -> bool {
+    let off = n.off + s;
+    match &n.ty {
+        Ty::Union { dense, .. } => {
+            if imp { return true }
+            n.kids.iter().any(|k| if *dense { hazard(k, 0, k.len, false) } else { hazard(k, off, l, false) })
+        }
+        Ty::Ree { rw, .. } => {
+            let ends = &n.kids[0];
+            if l == 0 { return ends.len > 0 }
+            // values: the physical runs covering [off, off+l)
+            let e: Vec<usize> = (0..ends.len).map(|i| rd(&ends.bufs[0], *rw, ends.off + i) as usize).collect();
+            let sp = e.iter().filter(|x| **x <= off).count();
+            let ep = e.iter().filter(|x| **x < off + l).count();
+            hazard(&n.kids[1], sp, ep - sp + 1, false)
+        }
+        Ty::Struct(_) => n.kids.iter().any(|k| hazard(k, off, l, imp)),
+        Ty::List { large, .. } => {
+            let c = &n.kids[0];
+            if l == 0 { return hazard(c, 0, 0, c.len != 0) }
+            let w = if *large { 8 } else { 4 };
+            let (st, en) = (rdu(&n.bufs[0], w, off), rdu(&n.bufs[0], w, off + l));
+            hazard(c, st, en - st, st != 0 || en - st != c.len)
+        }
+        Ty::ListView { .. } => { let c = &n.kids[0]; if l == 0 { hazard(c, 0, 0, c.len != 0) } else { hazard(c, 0, c.len, false) } }
+        Ty::FixedList { n: k, .. } => { let k = *k as usize; hazard(&n.kids[0], off * k, l * k, imp) }
+        _ => false,
+    }
+}
+fn col_hazard(n: &Node, slice: Option<(usize, usize)>) -> bool {
+    match slice { Some((o, l)) => hazard(n, o, l, false), None => hazard(n, 0, n.len, false) }
+}
+/// a dictionary's values are written whole (no hazard from slicing) but may contain hazards themselves
+fn dict_hazard(n: &Node) -> bool {
+    if let Ty::Dict { .. } = n.ty { return hazard(&n.kids[0], 0, n.kids[0].len, false) || dict_hazard(&n.kids[0]) }
+    n.kids.iter().any(dict_hazard)
 }
 
 /// prefix of length d of a values array (a longer backing array is a valid layout of the shorter one)
@@ -654,7 +814,7 @@ fn evolve(r: &mut Rng, n: &mut Node, path: &mut Vec<usize>, uni: &mut HashMap<Ve
         }
         return;
     }
-    for (i, k) in n.kids.iter_mut().enumerate() { path.push(i); evolve(r, k, path, uni, grow_only); path.pop() }
+    for (i, k) in n.kids.iter_mut().enumerate() { path.push(i); evolve(r, k, path, uni, grow_only); path.pop(); }
 }
 /// first batch: make dictionary universes larger than what the first batch uses, so later batches can extend
 fn seed_universe(r: &mut Rng, n: &mut Node, path: &mut Vec<usize>, uni: &mut HashMap<Vec<usize>, (Node, usize)>) {
@@ -668,7 +828,7 @@ fn seed_universe(r: &mut Rng, n: &mut Node, path: &mut Vec<usize>, uni: &mut Has
         uni.insert(path.clone(), (u, d));
         return;
     }
-    for (i, k) in n.kids.iter_mut().enumerate() { path.push(i); seed_universe(r, k, path, uni); path.pop() }
+    for (i, k) in n.kids.iter_mut().enumerate() { path.push(i); seed_universe(r, k, path, uni); path.pop(); }
 }
 
 // ---- derived information for the type-level models
@@ -715,16 +875,41 @@ fn tag_ty(t: &Ty) -> &'static str {
 
 pub fn gen_case(r: &mut Rng, tier: &str) -> CaseData {
     let kind = *r.pick(&[0i64, 0, 0, 1, 1, 1, 2, 2, 3, 3, 3, 4, 5]);
-    let v5 = r.chance(3, 4);
-    let legacy = !v5 && r.chance(1, 3);
-    let comp = if v5 && r.chance(1, if tier == "thorough" { 2 } else { 4 }) { 1 + r.below(2) as i64 } else { 0 };
-    let opts = Opts { kind, align: *r.pick(&[8i64, 16, 32, 64]), v5, legacy, comp, dh: r.below(2) as i64,
-        fmax: *r.pick(&[1i64, 16, 64, 200, 1000, 2097152]), fdh: r.below(2) as i64, share: r.bool(), chunk_seed: r.below(1 << 30) as i64, with_schema: r.bool() };
+    let mut v5 = r.chance(3, 4);
+    let mut legacy = !v5 && r.chance(1, 3);
+    let fdh = r.below(2) as i64;
+    let dh = r.below(2) as i64;
     let ncols = if r.chance(1, 12) { 0 } else { 1 + r.below(4) };
     let cols: Vec<Col> = (0..ncols).map(|_| {
-        let ty = gen_col_ty(r);
-        Col { ty, nullable: r.chance(3, 4), name: r.below(12) as i64, meta: r.below(5) as i64, deco: (0..24).map(|_| r.below(1000) as i64).collect() }
+        let ty = loop {
+            let t = gen_col_ty(r);
+            // KNOWN-FINDING candidate (Flight, Union): FlightDataEncoder::prepare_field_for_flight rebuilds every Union-typed
+            // field with Field::new_union: the field becomes non-nullable and loses its metadata, so the decoded schema
+            // differs from the input schema, and for nested unions encoding fails (cast Union -> Union / validation errors)
+            if kind == 3 && any_ty(&t, &|x| matches!(x, Ty::Union { .. })) { continue }
+            // KNOWN-FINDING candidates (Flight, DictionaryHandling::Hydrate goes through arrow_cast::cast):
+            //   Dictionary<_, RunEndEncoded<..>> loses the run-end / values field names and metadata of the target type
+            //   ("column types must match schema types"); zero-width FixedSizeBinary(0) / FixedSizeList(_, 0) next to a
+            //   dictionary lose their row count ("all columns in a record batch must have the specified row count")
+            if kind == 3 && fdh == 0 && any_ty(&t, &|x| matches!(x, Ty::Dict { .. })) {
+                if any_ty(&t, &|x| matches!(x, Ty::Dict { v, .. } if any_ty(v, &|y| matches!(y, Ty::Ree { .. })))) { continue }
+                if any_ty(&t, &|x| matches!(x, Ty::Ree { v, .. } if any_ty(v, &|y| matches!(y, Ty::Dict { .. })))) { continue }
+                if any_ty(&t, &|x| matches!(x, Ty::FixedBin(0) | Ty::FixedList { n: 0, .. })) { continue }
+            }
+            // KNOWN-FINDING candidate (delta dictionaries): DictionaryUpdate::Delta slices the new values with ArrayData::slice;
+            // a Union in the values (directly or through Struct / FixedSizeList) is then written ignoring the slice (class A)
+            if dh == 1 && any_ty(&t, &|x| matches!(x, Ty::Dict { v, .. } if union_reachable(v))) { continue }
+            break t;
+        };
+        Col { ty, nullable: r.chance(3, 4) || logical_nulls(&ty_dummy()), name: r.below(12) as i64, meta: r.below(5) as i64, deco: (0..24).map(|_| r.below(1000) as i64).collect() }
     }).collect();
+    let cols: Vec<Col> = cols.into_iter().map(|mut c| { if logical_nulls(&c.ty) { c.nullable = true } c }).collect();
+    // KNOWN-FINDING candidate (MetadataVersion::V4 + RunEndEncoded): the V4 writer emits a validity buffer for the run array
+    // (has_validity_bitmap) that the reader never consumes; every later buffer is shifted by one and the read fails
+    if cols.iter().any(|c| any_ty(&c.ty, &|x| matches!(x, Ty::Ree { .. }))) { v5 = true; legacy = false }
+    let comp = if v5 && r.chance(1, if tier == "thorough" { 2 } else { 4 }) { 1 + r.below(2) as i64 } else { 0 };
+    let opts = Opts { kind, align: *r.pick(&[8i64, 16, 32, 64]), v5, legacy, comp, dh,
+        fmax: *r.pick(&[1i64, 16, 64, 200, 1000, 2097152]), fdh, share: r.bool(), chunk_seed: r.below(1 << 30) as i64, with_schema: r.bool() };
     let nb = if r.chance(1, 15) { 0 } else { 1 + r.below(4) };
     let mut unis: Vec<HashMap<Vec<usize>, (Node, usize)>> = (0..ncols).map(|_| HashMap::new()).collect();
     // the file format allows only one dictionary per field (delta extensions with DictionaryHandling::Delta):
@@ -737,9 +922,28 @@ pub fn gen_case(r: &mut Rng, tier: &str) -> CaseData {
         let total = match slice { Some((o, l)) => o + l + r.below(4), None => rows };
         let mut nodes = Vec::new();
         for (ci, col) in cols.iter().enumerate() {
-            let mut n = c09::gen_valid(r, &col.ty, total, !col.nullable);
-            let mut path = Vec::new();
-            if bi == 0 { seed_universe(r, &mut n, &mut path, &mut unis[ci]) } else { evolve(r, &mut n, &mut path, &mut unis[ci], grow_only) }
+            let mut tries = 0;
+            let n = loop {
+                let mut n = c09::gen_valid(r, &col.ty, total, !col.nullable);
+                let mut path = Vec::new();
+                let mut u = unis[ci].clone();
+                if bi == 0 { seed_universe(r, &mut n, &mut path, &mut u) } else { evolve(r, &mut n, &mut path, &mut u, grow_only) }
+                // KNOWN-FINDING candidates A (Union under a non-trivial ArrayData::slice) and B (empty slice of a non-empty
+                // RunEndEncoded array), see `hazard`: such layouts are not generated
+                tries += 1;
+                if (col_hazard(&n, slice) || dict_hazard(&n)) && tries < 200 { continue }
+                // Flight cuts a batch into row ranges (array-level slices): no piece may fall into class A / B either
+                if kind == 3 && tries < 200 {
+                    let base = slice.map_or(0, |x| x.0);
+                    if (0..rows).any(|o| (1..=rows - o).any(|l| hazard(&n, base + o, l, false))) { continue }
+                }
+                // layouts the typed constructors reject (e.g. an empty offsets buffer at a non-zero offset) are regenerated
+                let dt = field_of(ci, col).data_type().clone();
+                let ok = std::panic::catch_unwind(std::panic::AssertUnwindSafe(|| build(&n, &dt, false, &mut DictCache::new()).map(make_array).is_some())).unwrap_or(false);
+                if !ok && tries < 200 { continue }
+                unis[ci] = u;
+                break n;
+            };
             nodes.push(n);
         }
         batches.push(Batch { rows, slice, cols: nodes });
@@ -752,23 +956,105 @@ pub fn gen_case(r: &mut Rng, tier: &str) -> CaseData {
     } else { None };
     let mut c = CaseData { opts, proj, schema_meta: r.below(5) as i64, cols, batches, derived: vec![] };
     c.derived = derive(&c).unwrap_or_default();
+    if c.derived.is_empty() && std::env::var("C04_DEBUG").is_ok() { eprintln!("C04_DEBUG unbuildable case: {:?}", c.cols.iter().map(|x| enc_ty_vec(&x.ty)).collect::<Vec<_>>()) }
     c
+}
+fn ty_dummy() -> Ty { Ty::Bool }
+/// a Union reachable from the root through Struct / FixedSizeList only (what an ArrayData::slice propagates to)
+fn union_reachable(t: &Ty) -> bool {
+    match t { Ty::Union { .. } => true, Ty::Struct(fs) => fs.iter().any(|(_, t)| union_reachable(t)), Ty::FixedList { c, .. } => union_reachable(c), _ => false }
+}
+pub fn case_has_hazard(c: &CaseData) -> bool {
+    c.batches.iter().any(|b| b.cols.iter().any(|n| col_hazard(n, b.slice) || dict_hazard(n)))
 }
 
 pub fn generate(tier: &str, r: &mut Rng, emit: &mut dyn FnMut(Case)) {
     let n = if tier == "thorough" { 6000 } else { 600 };
+    for _ in 0..n / 2 {
+        let hi = if r.bool() { 12 } else { 300 };
+        let rows = if r.chance(1, 10) { 0 } else { r.below(hi) };
+        let max = *r.pick(&[1usize, 2, 7, 8, 9, 63, 64, 65, 100, 512, 1000, 4096, 2097152]);
+        let ncols = r.below(4);
+        emit(Case::new("c04.flight_split", vec![gs(&[rows as i64, max as i64, ncols as i64])], &["c04.flight_split.post"], format!("rows{} max{} c{}", rows.min(13), max, ncols)));
+    }
     for _ in 0..n {
         let c = gen_case(r, tier);
+        if case_has_hazard(&c) { continue }
         let args = encode_case(&c);
         let types: Vec<&str> = c.cols.iter().map(|c| tag_ty(&c.ty)).collect();
         let tag = format!("k{} a{} v{}{} c{} d{} f{} nb{} {}", c.opts.kind, c.opts.align, if c.opts.v5 { 5 } else { 4 }, if c.opts.legacy { "L" } else { "" }, c.opts.comp, c.opts.dh, c.opts.fdh, c.batches.len(), types.join("+"));
         emit(Case::new("c04.roundtrip", args.clone(), &["c04.roundtrip.spec"], tag.clone()));
         if c.derived.is_empty() { continue }
-        emit(Case::new("c04.messages", args.clone(), &["c04.messages"], tag.clone()));
+        if c.opts.kind != 3 { emit(Case::new("c04.messages", args.clone(), &["c04.messages"], tag.clone())) }
         if c.opts.kind == 0 { emit(Case::new("c04.file_layout", args.clone(), &["c04.file_layout.post1"], tag.clone())) }
         if !c.cols.is_empty() && !c.batches.is_empty() {
             let mut a2 = args.clone(); a2.push(gs(&[r.below(4) as i64, r.below(4) as i64]));
-            emit(Case::new("c04.read_array", a2, &["c01.valid.post1"], tag));
+            emit(Case::new("c04.read_array", a2, &["c01.valid.post1"], tag.clone()));
+            let mut a3 = args.clone(); a3.push(gs(&[r.below(4) as i64, r.below(4) as i64]));
+            emit(Case::new("c04.encode", a3, &["c04.encode.post1"], tag));
         }
+    }
+}
+
+// ------------------------------------------------------------------ probes (manual witnesses of findings)
+fn probe_rt(name: &str, col: ArrayRef, v5: bool) {
+    let schema = Arc::new(Schema::new(vec![Field::new("c", col.data_type().clone(), true)]));
+    let rb = RecordBatch::try_new(schema.clone(), vec![col.clone()]).unwrap();
+    let o = Opts { kind: 1, align: 8, v5, legacy: false, comp: 0, dh: 0, fmax: 1 << 20, fdh: 1, share: false, chunk_seed: 0, with_schema: false };
+    match write_all(&o, &schema, &[rb.clone()]) {
+        Err(e) => eprintln!("{name}: WRITE ERROR {e}"),
+        Ok(w) => match read_all(&o, &w, None) {
+            Err(e) => eprintln!("{name}: READ ERROR {e}"),
+            Ok((_, rbs)) => { let same = rbs.len() == 1 && rbs[0].column(0).as_ref() == col.as_ref();
+                eprintln!("{name}: read ok, equal={same}\n  in  = {:?}\n  out = {:?}", col, rbs[0].column(0)) }
+        },
+    }
+}
+fn probe(k: i64) {
+    use arrow_array::*;
+    use arrow_buffer::{OffsetBuffer, ScalarBuffer};
+    let ints: ArrayRef = Arc::new(Int32Array::from(vec![10, 20, 30, 40]));
+    let ufields = UnionFields::try_new(vec![0i8], vec![Field::new("a", DataType::Int32, true)]).unwrap();
+    match k {
+        1 => { // List<SparseUnion> whose child has one element more than the last offset
+            let u = UnionArray::try_new(ufields.clone(), ScalarBuffer::from(vec![0i8, 0, 0, 0]), None, vec![ints.clone()]).unwrap();
+            let l = ListArray::new(Arc::new(Field::new("item", u.data_type().clone(), true)), OffsetBuffer::new(ScalarBuffer::from(vec![0i32, 1, 3])), Arc::new(u), None);
+            probe_rt("list<sparse union> with unused trailing child slot", Arc::new(l), true);
+        }
+        2 => { // List<DenseUnion> sliced
+            let u = UnionArray::try_new(ufields.clone(), ScalarBuffer::from(vec![0i8, 0, 0, 0]), Some(ScalarBuffer::from(vec![3i32, 2, 1, 0])), vec![ints.clone()]).unwrap();
+            let l = ListArray::new(Arc::new(Field::new("item", u.data_type().clone(), true)), OffsetBuffer::new(ScalarBuffer::from(vec![0i32, 1, 2, 4])), Arc::new(u), None);
+            probe_rt("list<dense union>.slice(1,2)", Arc::new(l.slice(1, 2)), true);
+        }
+        3 => { // empty slice of a run array
+            let r = RunArray::<arrow_array::types::Int32Type>::try_new(&Int32Array::from(vec![2, 4]), &Int32Array::from(vec![7, 8])).unwrap();
+            probe_rt("run array .slice(1,0)", Arc::new(r.slice(1, 0)), true);
+            probe_rt("run array .slice(0,0)", Arc::new(r.slice(0, 0)), true);
+        }
+        4 => { let r = RunArray::<arrow_array::types::Int32Type>::try_new(&Int32Array::from(vec![2, 4]), &Int32Array::from(vec![7, 8])).unwrap();
+               probe_rt("run array, MetadataVersion::V4", Arc::new(r), false); }
+        5 => { // FixedSizeList<SparseUnion> sliced
+            let u = UnionArray::try_new(ufields.clone(), ScalarBuffer::from(vec![0i8, 0, 0, 0]), None, vec![ints.clone()]).unwrap();
+            let l = FixedSizeListArray::new(Arc::new(Field::new("item", u.data_type().clone(), true)), 2, Arc::new(u), None);
+            probe_rt("fixed_size_list<sparse union>.slice(1,1)", Arc::new(l.slice(1, 1)), true);
+        }
+        6 => { // delta dictionaries whose values are unions
+            use arrow_array::types::Int32Type;
+            let mk = |n: usize| -> ArrayRef {
+                let vals: ArrayRef = Arc::new(Int32Array::from((0..n as i32).map(|x| 100 + x).collect::<Vec<_>>()));
+                let u = UnionArray::try_new(ufields.clone(), ScalarBuffer::from(vec![0i8; n]), None, vec![vals]).unwrap();
+                let keys = Int32Array::from((0..n as i32).rev().collect::<Vec<_>>());
+                Arc::new(DictionaryArray::<Int32Type>::try_new(keys, Arc::new(u)).unwrap())
+            };
+            let (a, b) = (mk(2), mk(4));
+            let schema = Arc::new(Schema::new(vec![Field::new("c", a.data_type().clone(), true)]));
+            let o = Opts { kind: 1, align: 8, v5: true, legacy: false, comp: 0, dh: 1, fmax: 1 << 20, fdh: 1, share: false, chunk_seed: 0, with_schema: false };
+            let rbs = vec![RecordBatch::try_new(schema.clone(), vec![a]).unwrap(), RecordBatch::try_new(schema.clone(), vec![b]).unwrap()];
+            match write_all(&o, &schema, &rbs).and_then(|w| read_all(&o, &w, None)) {
+                Err(e) => eprintln!("delta dict of sparse union: ERROR {e}"),
+                Ok((_, out)) => for (x, y) in rbs.iter().zip(out.iter()) { eprintln!("delta dict of sparse union: rows in {:?} out {:?}", rows_of(x.column(0).as_ref()), rows_of(y.column(0).as_ref())) },
+            }
+        }
+        _ => {}
     }
 }
